@@ -1,5 +1,5 @@
 """property id -> check function(prop, tier) -> exit code, plus the metadata bin/mkmanifest writes into MANIFEST.json"""
-import frame, keytree, calltracer, codec
+import frame, keytree, calltracer, codec, precomp
 
 FRAME_NOTE = ("Trusted: TLC 1.8; go-ethereum v1.12.0's StateDB as world state; the scenario compiler (harness/scn) that turns model "
               "instructions into byte code; join-point failures are injected at provider level (GetTxBondAspects error) except where real WASM "
@@ -70,6 +70,13 @@ META = {
                       "be one constant non-zero fee for all opcodes and forks (choose-once, not the number 800); memory-argument and operand vectors that are "
                       "malformed must halt the frame with all gas consumed, well-formed ones must leave memory size unchanged."),
                 note="Trusted: TLC; POP costs 2 gas (used to derive the fee). Reads reaching beyond existing memory may fail or read zeros; the property fixes neither."),
+    "C14": dict(fn=precomp.check, engine="precompile", design_ref="3.5, 6 C14", replay=".build/verifh precompile -one {path}",
+                technique="TLC enumeration of Precompile.tla payload vectors + execution of every vector on the real precompiles with recording host callbacks",
+                text=("The ABI decode of the three Artela precompiles is written in TLA+ over payload lengths, head and length words (with 2^63..2^256-1 classes); "
+                      "every vector is sent to the real precompile and the address/key/hash/(key,value) that reach the host, the returned bytes, the error and "
+                      "the fee must be exactly the model's; every call kind x depth x fork checks availability from Berlin on and that a context write is "
+                      "attributed to the calling contract or refused, never crashes."),
+                note="Trusted: TLC; the harness host callbacks. One fixed fee per precompile is required (choose-once), not the number 5000."),
 }
 
 CHECKS = {p: m["fn"] for p, m in META.items()}
